@@ -56,6 +56,7 @@ fixed('F7', 'C16', ['C16.cancelled_runloop_not_done'], '0558ace', 'cancelling th
 fixed('F8', 'C09', ['C09.own_parent', 'C09.root_has_parent'], 'ca107f3', 'forwarded root event became its own parent')
 fixed('F10', 'C16', ['C16.handler_after_stop'], '2d7c9ce', 'backlog of a stopped bus was processed inline by another bus\'s awaiting handler')
 fixed('F19', 'C16', ['C16.task_survives_cancel', 'C16.cancelled_runloop_not_done'], '770e78d', 'cancel landing while execute_handler awaited its monitor task was swallowed; run loop survived asyncio.run() exit')
+fixed('F13', 'C20', ['C20.runtime_error', 'C20.probe_error'], '8ad1a87', '@retry semaphore contended in one event loop raised RuntimeError (bound to a different event loop) in every later loop')
 fixed('F17', 'C15', ['C15.not_idle_at_return'], '67ce4a2', 'wait_until_idle returned with a forwarded event still queued')
 fixed('F18', 'C09', ['C09.children_attribution'], 'f319433', 'child dispatched to two buses by one handler was listed twice in event_children')
 with open('/verif/KNOWN_FINDINGS.jsonl', 'w') as f:
